@@ -123,7 +123,13 @@ pub fn entry_points<F: Family>(p: &F::Packet, t: &mut Tape, ctx: &mut Ctx) -> Ca
         let k = t.pick(bytes.len());
         let kind = [std::io::ErrorKind::BrokenPipe, std::io::ErrorKind::ConnectionReset, std::io::ErrorKind::ConnectionAborted, std::io::ErrorKind::NotConnected, std::io::ErrorKind::TimedOut, std::io::ErrorKind::Other][t.pick(6)];
         let mut w = ScriptedWriter::new(&[], bytes.len() + 16);
-        w.fault = Some((k, kind));
+        // (or, one time in three, the sink is full: it answers Ok(0) from there on, like a Cursor over a fixed buffer)
+        let full = t.chance(1, 3);
+        if full {
+            w.zero_at = Some(k);
+        } else {
+            w.fault = Some((k, kind));
+        }
         let (r, _) = sio::drive(F::encode_async(p, &mut w), bytes.len() + 32);
         if r.is_ok() {
             viol!("encode_async into a sink that fails with {:?} after {} of {} bytes reported success; the sink holds {}; packet {}", kind, k, bytes.len(), hex_short(&w.out, 48), fam::render(p));
